@@ -83,7 +83,7 @@ func drawScenario(t *rapid.T, c *hx.Case) scenario {
 		st := rapid.IntRange(0, 2).Draw(t, "strategy")
 		r := &cb.Rule{Id: "r", Resource: "a", Strategy: cb.Strategy(st), RetryTimeoutMs: uint32(rapid.SampledFrom([]int{50, 500, 3000}).Draw(t, "retry")),
 			MinRequestAmount: uint64(rapid.IntRange(1, 3).Draw(t, "min")), StatIntervalMs: uint32(rapid.SampledFrom([]int{1000, 5000}).Draw(t, "interval")),
-			StatSlidingWindowBucketCount: uint32(rapid.SampledFrom([]int{0, 1, 5}).Draw(t, "buckets")), MaxAllowedRtMs: 10, ProbeNum: uint64(rapid.SampledFrom([]int{0, 2}).Draw(t, "probeNum"))}
+			StatSlidingWindowBucketCount: uint32(rapid.SampledFrom([]int{0, 1, 5, 3, 7}).Draw(t, "buckets")), MaxAllowedRtMs: 10, ProbeNum: uint64(rapid.SampledFrom([]int{0, 2}).Draw(t, "probeNum"))}
 		if st == model.ErrorCount {
 			r.Threshold = float64(rapid.IntRange(1, 3).Draw(t, "count"))
 		} else {
